@@ -182,8 +182,24 @@ func solveOne(i int, o *Obligation, cfg SolveCfg) {
 			o.Status = "refuted"
 			o.Model = "sat (the replay step queries the model)"
 		default:
-			o.Status = "unknown"
-			o.Model = r.verdict + ": " + firstLines(r.out, 3)
+			// second deterministic attempt: cvc5 under a resource limit
+			c5 := solverSpec{"cvc5", func(f string, t float64) []string {
+				return []string{"cvc5", fmt.Sprintf("--rlimit=%d", rl), fmt.Sprintf("--tlimit=%d", int(t*1000)), f}
+			}}
+			r2 := runSolver(context.Background(), c5, f, 30)
+			o.TimeS += r2.secs
+			switch r2.verdict {
+			case "unsat":
+				o.Status = "discharged"
+				o.Solver = "cvc5(rlimit)"
+			case "sat":
+				o.Status = "refuted"
+				o.Solver = "cvc5(rlimit)"
+				o.Model = "sat (the replay step queries the model)"
+			default:
+				o.Status = "unknown"
+				o.Model = r.verdict + "/" + r2.verdict + ": " + firstLines(r.out, 3)
+			}
 		}
 		return
 	}
